@@ -2,6 +2,7 @@
 
 __all__ = ["with_unit", "has_unit", "to_unit"]
 
+import numpy as np
 from pytensor.tensor import as_tensor_variable
 
 UNIT_ATTR_NAME = "__tensor_unit__"
@@ -49,4 +50,6 @@ def to_unit(obj, target):
     if not has_unit(obj):
         return obj
     base = getattr(obj, UNIT_ATTR_NAME)
-    return obj * base.to(target)
+    # (a numpy double: multiplying by a Python float keeps a float32 or integer
+    # constant in single precision)
+    return obj * np.float64(base.to(target))
